@@ -127,6 +127,12 @@ def gen_literals(tier, rng):
         ds = [int(c) for c in str(v)]
         for neg in (False, True):
             out.append(("dec", ("-" if neg else "") + str(v), {"ds": ds, "neg": neg}))
+    # many leading zeros: the written value decides, not the number of digits
+    for v in [0, 7, 32767, 32768, 65535, 65536, 100000, 2147483647, 2147483648] + [rng.randint(0, 2147483647) for _ in range(60)]:
+        for lead in (5, 8, 12, 20):
+            ds = [0] * lead + [int(c) for c in str(v)]
+            for neg in (False, True):
+                out.append(("dec", ("-" if neg else "") + "".join(map(str, ds)), {"ds": ds, "neg": neg}))
     # hex / octal
     def bits_of(text, base):
         b = []
@@ -250,6 +256,10 @@ def run(tier, replay):
                 feats |= {"op:" + t["op"] for t in r["toks"] if t["k"] in ("op", "un")}
             else:
                 feats.add("lit:" + text)
+                if r["k"] == "dec":
+                    # the written VALUE (leading zeros do not make another literal)
+                    import re as _re
+                    feats.add("value:" + _re.sub(r"^(-?)0+(?=\d)", r"\1", text))
             rep.violation({"expression": text, "observed": obs, "expected": "Expr.tla " + ("Prec(tokens)" if r["k"] == "chain" else "literal type/value")},
                           feats, name=r["k"])
     os.remove(path)
